@@ -17,8 +17,8 @@ func init() { Registry["C18"] = C18 }
 
 // Seg is one segment of a key layout.
 type Seg struct {
-	Kind string // Const BE64 LE64 VAR LenPrefixed Raw
-	Arg  string // origin of the encoded value (param name) or constant bytes (hex)
+	Kind string   // Const BE64 LE64 VAR LenPrefixed Raw
+	Arg  string   // origin of the encoded value (param name) or constant bytes (hex)
 	E    *ir.Expr // the encoded value's origin expression (nil for constants)
 }
 
